@@ -14,7 +14,7 @@ def cases(ctx):
     a, b = 1000, 1 << 60
     out.append({"dt": "u64", "level": 8, "order": 0, "gcds": 1, "chunks": [[a, a + w, b, b + w] * 2], "kinds": ["corpus-gcd-bits"], "drain": 0})
     # every dtype x a spread of configs
-    n_rand = 500 if ctx.quick else 6000
+    n_rand = 2500 if ctx.quick else 20000
     for dt in S.ALL_DT:
         for order in ([0, 1, 7] if ctx.quick else range(8)):
             out.append(S.enc_case(rng, dt=dt, order=order))
@@ -34,7 +34,7 @@ def cases(ctx):
     for _ in range(n_rand):
         out.append(S.enc_case(rng))
     # sparse chunks with run-length coding
-    for _ in range(20 if ctx.quick else 200):
+    for _ in range(80 if ctx.quick else 600):
         out.append(S.enc_case(rng, n=rng.choice([1001, 2000, 3000, 4000]), kind="sparse", order=0))
     return out
 
